@@ -704,6 +704,7 @@ func trackRun(e *Env) {
 
 	var c *client.Conn
 	ready := false
+	welcomeMark := 0 // lines the model had sent when it (last) sent a welcome
 	// client lines: MODE/WHO queries are answered later, at random moments
 	var queries []string
 	clientLines := 0
@@ -735,6 +736,7 @@ func trackRun(e *Env) {
 			if _, ok := Registration(l, time.Hour); !ok {
 				return
 			}
+			welcomeMark = len(net.sent)
 			l.SendLine(":irc.sim 001 " + net.me.nick + " :Welcome to the sim " + net.me.nick + "!sim@host.sim")
 			ready = true
 			for {
@@ -761,7 +763,23 @@ func trackRun(e *Env) {
 	if e.Prop == "C05" && g.Pct(35) {
 		reqNick = "asked"
 	}
-	c = NewClient(g.Knobs(ClientOpts{Nick: reqNick, Ident: "sim", Name: "Sim User", Flood: flood, Track: true}))
+	co := ClientOpts{Nick: reqNick, Ident: "sim", Name: "Sim User", Flood: flood, Track: true}
+	if g.Pct(30) {
+		// an application's recovery hook that takes its time (it runs after every
+		// handler, also after the built-in registration step inside Connect): the
+		// connecting goroutine is then still inside Connect when the server's
+		// first lines are being handled
+		e.S.Count("probe.slow-recovery-hook")
+		co.Recover = func(c *client.Conn, l *client.Line) {
+			// (it is the recovery hook: a built-in handler that panics on a
+			// non-conformant line is its business, as it is LogPanic's)
+			_ = recover()
+			if l != nil && l.Cmd == client.REGISTER {
+				simrt.Sleep(time.Duration(1+g.S.Choose(5)) * time.Millisecond)
+			}
+		}
+	}
+	c = NewClient(g.Knobs(co))
 	st := c.StateTracker()
 	trafficStarted := false
 	if g.Pct(40) {
@@ -788,6 +806,13 @@ func trackRun(e *Env) {
 				}
 				me := st.Me()
 				old := st.GetNick(reqNick)
+				if kind == "bg" && len(net.sent) > welcomeMark {
+					// a background handler runs in its own time: once later lines are
+					// on the wire (a rename of the client, say) they may have been
+					// applied already; nothing is claimed then.  (Evaluated after the
+					// tracker calls, which are scheduling points.)
+					return
+				}
 				e.Check()
 				if me == nil || me.Nick != l.Args[0] || (reqNick != l.Args[0] && old != nil) {
 					e.Violation(kind+"-handler-view", "a %s handler for the welcome line %q saw the tracker before the line was applied: Me()=%v, %q still tracked=%v", kind, l.Raw, me, reqNick, old != nil)
@@ -956,7 +981,13 @@ func trackRun(e *Env) {
 		e.Violation("harness-connect", "Connect failed: %v", connErr)
 		return
 	}
-	simrt.Settle(time.Second)
+	if co.Recover == nil || g.Bool() {
+		simrt.Settle(time.Second)
+	} else {
+		// (a bouncer or a forced auto-join: the first state-changing lines follow
+		// the welcome at once, while Connect may still be on its way out)
+		e.S.Count("probe.state-changing-lines-straight-after-the-welcome")
+	}
 	if g.Pct(30) {
 		// a watchdog that keeps calling Connect and EnableStateTracking on the
 		// live client: both are refused / no-ops and must not disturb the
